@@ -224,7 +224,7 @@ func C02(r *chk.Run) {
 	idxFlags := gow.FSkipMessageIndexing | gow.FSkipChunkIndex | gow.FSkipRepeatedSchemas | gow.FSkipRepeatedChannelInfos | gow.FSkipStatistics
 	all := (1<<gow.NFlags - 1) &^ gow.FSkipMagic
 	so := spaceOpts{flagBits: all, k1Full: 1, k1Reduced: 2, k2Depth: 3, skipMagicOff: true, emphasisMask: idxFlags | gow.FSkipAttachmentIndex | gow.FSkipMetadataIndex,
-		k1Extra: []k1Phase{{"full", idxFlags, model.Full(false), 3}, {"reduced", idxFlags | gow.FSkipAttachmentIndex | gow.FSkipMetadataIndex | gow.FSkipSummaryOffsets, model.Reduced(), 4}}}
+		k1Extra: []k1Phase{{"full", idxFlags, model.Full(false), 2}, {"reduced", idxFlags | gow.FSkipAttachmentIndex | gow.FSkipMetadataIndex | gow.FSkipSummaryOffsets, model.Reduced(), 4}}}
 	if r.Thorough() {
 		so = spaceOpts{flagBits: all, k1Full: 2, k1Reduced: 3, k2Depth: 4, k3Depth: 3, skipMagicOff: true,
 			k1Extra: []k1Phase{{"full", idxFlags, model.Full(true), 3}, {"reduced", idxFlags | gow.FSkipAttachmentIndex | gow.FSkipMetadataIndex | gow.FSkipSummaryOffsets, model.Reduced(), 5}}}
